@@ -172,6 +172,23 @@ func (si *StructInfo) Mk(fields []*Term) *Term {
 			panic(fmt.Sprintf("MkStruct %s field %s: sort %s, want %s", si.Name, si.Fields[i].Name, f.S, si.Fields[i].Sort))
 		}
 	}
+	// eta: mk(acc_0(v), ..., acc_n(v)) is v
+	var whole *Term
+	for i, f := range fields {
+		if f.Op != si.Fields[i].Acc || len(f.Args) != 1 {
+			whole = nil
+			break
+		}
+		if i == 0 {
+			whole = f.Args[0]
+		} else if f.Args[0] != whole && !termEq(f.Args[0], whole) {
+			whole = nil
+			break
+		}
+	}
+	if whole != nil && whole.S == si.Sort {
+		return whole
+	}
 	return mk(si.Ctor(), si.Sort, fields...)
 }
 
